@@ -405,6 +405,48 @@ def run_condition_copy(ctx: Ctx) -> None:
                    f"{'SpatialTransformer' if wrapper else 'SpatialTransform'}.condition({what})", th)
 
 
+def run_fit(ctx: Ctx) -> None:
+    """DisplacementFieldTransform.fit(flow) with tensor parameters is exact: the transform then *is* that flow, whatever it buffered before."""
+    prog = ctx.prog
+    mod, cls, kw = NONRIGID[0]
+    ci = prog.cls(mod, cls)
+    fF = prog.find_method(ci, "fit")
+    ctx.fn(fF)
+    ctx.fn(prog.func("deepali.spatial.base", "SpatialTransform.fit"))
+    ctx.rule("T6x.fit", "DisplacementFieldTransform.fit(flow) with parameters held as Parameter / buffer, from populated buffers, for a flow on "
+                        "the transform's own grid given in WORLD, GRID or the cube axes of either convention: afterwards data(), tensor() and "
+                        "a call on points serve exactly the given flow expressed in the transform's axes (vectors multiplied by the linear part "
+                        "of the grid's own map between those axes) — no stale buffer, no second conversion")
+    for kind in ("parameter", "buffer"):
+        for ac in (True, False):
+            for axname in ("WORLD", "GRID", "CUBE", "CUBE_CORNERS"):
+                def th(kind=kind, ac=ac, axname=axname):
+                    env = TEnv(ctx, 2)
+                    it = env.it
+                    g = it.new(env.Grid, size=env.size, spacing=(2, 3), align_corners=ac)
+                    env.grid = g
+                    t = env.make(mod, cls, kw, kind)
+                    it.method(t, "update")
+                    Axes = prog.cls("deepali.core.grid", "Axes")
+                    FF = prog.cls("deepali.data.flow", "FlowFields")
+                    ax = it.enum(Axes, axname)
+                    own = it.enum(Axes, "CUBE_CORNERS" if ac else "CUBE")
+                    v = env.sym([1, 2] + list(reversed(env.size)))
+                    flow = it.new(FF, v.clone(), g, ax)
+                    it.method(t, "fit", flow)
+                    A = it.method(g, "transform", ax, own, vectors=True)
+                    want = symt.matmul(A, v.permute([0, 2, 3, 1]).unsqueeze(-1)).squeeze(-1).permute([0, 3, 1, 2])
+                    for what in ("data", "tensor"):
+                        got = it.method(t, what)
+                        if list(got.shape) != list(want.shape) or not teq(got, want):
+                            return False, (f"after fit(flow in {axname} axes) {what}() is not the flow expressed in the transform's axes "
+                                           f"(first {to_rat(got.flat()[0])} expected {to_rat(want.flat()[0])})")
+                    if not teq(it.method(t, "tensor"), fresh_tensor(it, t)):
+                        return False, "after fit(flow) the buffered displacement is not the one recomputed from the parameters"
+                    return True, ""
+                _guard(ctx, "T6x.fit", f"{kind}:{ac}:{axname}", fF, f"class={cls} params={kind} align_corners={ac} flow axes={axname}", th)
+
+
 def run_unlink_slot(ctx: Ctx) -> None:
     """After unlink_() the transform accepts new parameters given as a plain tensor (the documented argument type of data_)."""
     prog = ctx.prog
